@@ -25,7 +25,7 @@ PROPS = {
             'parse() precondition: 5 + 5 * tokens <= 2^24 (node ids are 24 bits): for inputs above ~3.3 million tokens U24::new would overflow (debug_assert) - documented size regime, see DESIGN.md section 5 (D10)',
             'unbounded stack: recursion depth of the parser is not bounded by any obligation (D4: 5000 nested parentheses overflow the stack)',
             '.into() conversions from lexer TokenId to parse_node::TokenId: argument < 2^24 not checked per call site (trait impls cannot carry requires); holds because cursor <= number of tokens < 2^24'], 'trusted': []},
-    'C17': {'units': ['U-HDR', 'U-DIG'], 'assumptions': ['tree invariant (zones well bracketed, no reference crosses a zone) is a precondition here; parser side under construction'], 'trusted': []},
+    'C17': {'units': ['U-HDR', 'U-PARSE', 'U-DIG'], 'assumptions': ['tree invariant (zones well bracketed, no reference crosses a zone) is a precondition of build_header; on the parser side only the zone DISCIPLINE is proved (private declarations and the bodies of public functions are parsed inside a private zone, public declarations outside), not the full bracket/reference invariant'], 'trusted': []},
 }
 
 NOT_APPLICABLE = {
